@@ -7,6 +7,7 @@ import pipeline
 import semcheck
 
 PROBE = b'''#!/bin/bash
+echo "E:${0##*/}" >&2
 # dumps its arguments, one per line in brackets, and exits with the status encoded in its name
 echo "argc=$#"
 for a in "$@"; do printf '[%s]\\n' "$a"; done
@@ -14,16 +15,19 @@ s=${0##*exit}; s=${s%.sh}
 exit $s
 '''
 UPPER = b'''#!/bin/bash
+echo "E:${0##*/}" >&2
 tr 'a-z' 'A-Z'
 s=${0##*exit}; s=${s%.sh}
 exit $s
 '''
 COUNT = b'''#!/bin/bash
+echo "E:${0##*/}" >&2
 wc -l | tr -d ' '
 s=${0##*exit}; s=${s%.sh}
 exit $s
 '''
 REV = b'''#!/bin/bash
+echo "E:${0##*/}" >&2
 while IFS= read -r l; do printf '<%s>\\n' "$l"; done
 s=${0##*exit}; s=${s%.sh}
 exit $s
@@ -93,7 +97,8 @@ def gen_case(rng, strings, idx):
     src = "\n".join(lines) + "\n"
     # outputs with more than one trailing line feed are not generated (bash strips them all; the property says "its trailing newline")
     multi_nl = captured and text.endswith("\n\n")
-    return pipeline.Case("a%d" % idx, {"main.tsh": src.encode()}, meta=dict(src=src, expected_out=out, extra_files=files, args=args, skip=multi_nl))
+    return pipeline.Case("a%d" % idx, {"main.tsh": src.encode()}, meta=dict(src=src, expected_out=out, extra_files=files, args=args, skip=multi_nl,
+                                                                                expected_err=sorted("E:" + nm for nm in names)))
 
 
 def _exec(arg):
@@ -126,7 +131,8 @@ def run(res, b, tier, seed):
     runnable = [c for c in cases if c.out.get("BASH", ("", ""))[0] == "OK"]
     runs = common.pmap_proc(_exec_chmod, [(bytes.fromhex(c.out["BASH"][1]), c.meta["extra_files"]) for c in runnable])
     for c, r in zip(runnable, runs):
-        if r["stdout"] != c.meta["expected_out"].encode() or r["stderr"] != b"" or r["status"] != 0 or r["timeout"]:
+        # every stage writes one line to its standard error: it must pass through untouched (never into a captured value)
+        if r["stdout"] != c.meta["expected_out"].encode() or sorted(r["stderr"].decode("latin1").splitlines()) != c.meta["expected_err"] or r["status"] != 0 or r["timeout"]:
             fails.append((c, "behaviour", dict(stdout=r["stdout"].decode("latin1")[:600], stderr=r["stderr"].decode("latin1")[:300], status=r["status"])))
     res.coverage.update(dict(
         evaluations=len(cases),
